@@ -1208,6 +1208,16 @@ example :
     · cases h; simp
   · intro a b; simp
 
+/-- The set flavour is an instance of the typed theorems: its value serializer pair (`types.Empty`) round-trips, so
+`C09_typed_refines` (`Has`, `Delete`), `C09_typed_root_eq_iff`, `C09_typed_size_eq_card`, `C09_typed_stream_complete`
+and `C09_stack_refines` hold for `ads.Set` over any round-tripping key serializer. -/
+theorem C09_typed_set_flavour (kenc : K → Option Key) (kdec : Key → Option K) :
+    ValRT (setCodec kenc kdec) ∧ (KeyRT (setCodec kenc kdec) ↔ ∀ k kb, kenc k = some kb → kdec kb = some k) := by
+  refine ⟨?_, Iff.rfl⟩
+  intro v vb h
+  simp only [setCodec, Option.some.injEq] at h
+  subst h; rfl
+
 end Typed
 
 /-! ## store write faults (`Hive/Model/AdsFault.lean`): what a failing call leaves behind -/
